@@ -13,7 +13,7 @@ from mc.core import Judgement, Recorder
 PROPERTY = "C19"
 RULE = (
     "E3 explicit-state BFS over real PluginManager objects against an ordered-list reference model. Universe: synthetic "
-    "plug-ins X{m1,m2}, Y{m2,m3,M4 (case-sensitive)}, Z{m1, allows_discovery=False}; names a/A/b/c; transitions add_plugin(name, plugin, "
+    "plug-ins X{m1,m2,sub/m5 (a method name with a slash)}, Y{m2,m3,M4 (case-sensitive)}, Z{m1, allows_discovery=False}; names a/A/b/c (and Maße/maße in a separate closure); transitions add_plugin(name, plugin, "
     "prioritize in {F,T}) on manager 1 (or 1 and 2); state = tuple(plugins(type)) per manager (fully observable, so merging "
     "equal states is sound); BFS to closure; in EVERY state ALL queries (bare m1,m2,m3,nope,slsqp,default; explicit a/m1, "
     "A/m2, b/m3, c/m1, zz/m1, scipy/slsqp, SciPy/SLSQP, external/slsqp, external/m1) are evaluated through get_plugin and "
@@ -36,6 +36,7 @@ SINGLE_OUTCOME_OK = False
 TYPES = ["optimizer", "sampler", "realization_filter", "function_estimator", "plan_handler", "plan_step"]
 BUILTIN_QUERIES = {
     "optimizer": [("slsqp", "scipy"), ("scipy/slsqp", "scipy"), ("SciPy/SLSQP", "scipy"), ("external/slsqp", "external"),
+                  ("external/scipy/slsqp", "external"), ("External/SciPy/SLSQP", "external"),
                   ("external/m1", None), ("default", "scipy"), ("scipy/default", "scipy")],
     "sampler": [("norm", "scipy"), ("scipy/sobol", "scipy"), ("SCIPY/norm", "scipy")],
     "realization_filter": [("sort-objective", "default"), ("default/cvar-constraint", "default")],
@@ -43,10 +44,14 @@ BUILTIN_QUERIES = {
     "plan_handler": [("tracker", "default"), ("default/store", "default")],
     "plan_step": [("optimizer", "default"), ("DEFAULT/evaluator", "default")],
 }
-SYN_QUERIES = ["m1", "m2", "m3", "nope", "a/m1", "A/m2", "b/m3", "c/m1", "zz/m1", "a/nope", "B/m2", "M4", "m4", "a/M4", "B/M4", "b/m4"]
+SYN_QUERIES = ["m1", "m2", "m3", "nope", "a/m1", "A/m2", "b/m3", "c/m1", "zz/m1", "a/nope", "B/m2", "M4", "m4", "a/M4", "B/M4", "b/m4",
+               # a method name may itself contain a slash: only the FIRST slash separates the plug-in name
+               "a/sub/m5", "B/sub/m5", "sub/m5", "c/sub/m5",
+               # non-ASCII plug-in names (queried in spellings that every case-insensitive comparison treats alike)
+               "maße/m1", "MAßE/m2", "Maße/nope"]
 # Y is case-sensitive about its method M4: the manager must ask a plug-in about the method as requested (only plug-in
 # NAMES are case-insensitive)
-SUPPORTS = {"X": {"m1", "m2"}, "Y": {"m2", "m3", "M4"}, "Z": {"m1"}}
+SUPPORTS = {"X": {"m1", "m2", "sub/m5"}, "Y": {"m2", "m3", "M4"}, "Z": {"m1"}}
 DISCOVER = {"X": True, "Y": True, "Z": False}
 _PLUGINS: dict[str, Any] = {}
 
@@ -71,6 +76,11 @@ def plugin(tag: str, key: Any = None) -> Any:
     return _PLUGINS["cls"](tag)
 
 
+def fold(name: Any) -> Any:
+    """Names are compared the way any case-insensitive comparison would (lower() and casefold() agree on the alphabet used)."""
+    return name.casefold() if isinstance(name, str) else name
+
+
 def tag_of(obj: Any) -> str:
     return getattr(obj, "tag", type(obj).__name__)
 
@@ -83,7 +93,7 @@ class Model:
 
     def add(self, name: str, tag: str, prioritize: bool) -> bool:
         low = name.lower()
-        if any(n == low for n, _ in self.items):
+        if any(fold(n) == fold(low) for n, _ in self.items):
             return False
         if prioritize:
             self.items.insert(0, (low, tag))
@@ -96,7 +106,7 @@ class Model:
         if "/" in method:
             pname, meth = method.split("/", 1)
             for n, tag in self.items:
-                if n == pname.lower():
+                if fold(n) == fold(pname):
                     if tag in SUPPORTS:
                         return n if meth in SUPPORTS[tag] else None
                     return n if builtin_answers.get(method) == n else None
@@ -165,7 +175,7 @@ def check_state(obj: dict[str, Any], hist: list[Any], queries: list[str]) -> lis
     state_before = observe_state(obj)
     for mi, (mgr, model) in enumerate(zip(obj["mgrs"], obj["models"])):
         listed = [(n, tag_of(p)) for n, p in mgr.plugins(ptype)]
-        if listed != model.items:
+        if [(fold(n), t) for n, t in listed] != [(fold(n), t) for n, t in model.items]:
             out.append(("registration-order", {"observed": listed, "expected": model.items, "history": hist}))
             continue
         for round_ in range(2):
@@ -179,7 +189,7 @@ def check_state(obj: dict[str, Any], hist: list[Any], queries: list[str]) -> lis
                 except Exception as exc:  # noqa: BLE001
                     out.append((f"get-raised:{type(exc).__name__}", {"query": q, "history": hist}))
                     continue
-                if got != expected:
+                if fold(got) != fold(expected):
                     explicit = "/" in q
                     sig = "explicit-lookup" if explicit else "bare-lookup"
                     if not explicit and got is not None and any(n == got and tag == "Z" for n, tag in model.items):
@@ -281,6 +291,8 @@ def shards(tier: str, seed: int) -> list[dict[str, Any]]:
                     "lookups": ["m1", "a/m1", "nope"], "label": "optimizer:nomerge4"})
         out.append({"ptype": "optimizer", "n_mgr": 2, "names": ["a", "A"], "tags": ["X", "Z"], "depth": 3, "merge": False,
                     "lookups": ["m1", "A/m1"], "label": "optimizer:2mgr:nomerge3"})
+    out.append({"ptype": "optimizer", "n_mgr": 1, "names": ["Maße", "maße", "b"], "tags": ["X", "Z"], "depth": 6, "merge": True, "lookups": None,
+                "label": "optimizer:1mgr:closure-non-ascii"})
     for ptype in TYPES[1:]:
         out.append({"ptype": ptype, "n_mgr": 1, "names": ["a", "A", "b"], "tags": full_tags, "depth": 6, "merge": True,
                     "lookups": None, "label": f"{ptype}:1mgr:closure"})
